@@ -10,6 +10,11 @@ import (
 // Mask returns a string with the first `start` and last `end` characters
 func Mask(str, mask string, start, end int) string {
 	l := utf8.RuneCountInString(str)
+	if start >= l || end >= l-start {
+		// nothing left to mask; compared this way so that huge start/end cannot overflow l-start-end
+		return str
+	}
+
 	ml := l - start - end
 	if ml <= 0 {
 		return str
